@@ -272,14 +272,16 @@ func c06RunStream(s c06Stream) (sig, detail string, trace []string, obs string) 
 			return fail("prefix-not-processed", "well-formed packet %d before the hostile bytes was not handed over (handed %v)", i, handed)
 		}
 	}
-	acks := 0
+	acked := map[uint16]bool{}
 	for _, e := range tr.Snapshot() {
-		if e.Kind == memnet.KWrite && e.Pkt != nil && e.Pkt.Type == mqttref.PUBACK && e.Pkt.ID >= 100 && e.Pkt.ID < 104 {
-			acks++
+		if e.Kind == memnet.KWrite && e.Pkt != nil && e.Pkt.Type == mqttref.PUBACK {
+			acked[e.Pkt.ID] = true
 		}
 	}
-	if acks != s.Prefix/2 {
-		return fail("prefix-not-processed", "%d PUBACKs for %d QoS 1 prefix packets", acks, s.Prefix/2)
+	for i := 1; i < s.Prefix; i += 2 {
+		if !acked[uint16(100+i)] {
+			return fail("prefix-not-processed", "QoS 1 prefix packet %d (id %d) was not acknowledged", i, 100+i)
+		}
 	}
 	canary := len(handed) > s.Prefix && handed[len(handed)-1] == "canary"
 	if s.Listed {
